@@ -2,6 +2,7 @@
 //@ params query_string
 //@ hideutf8
 //@ props C08 C10 C12 C13 C17
+//@ consumers C01 C02 C15 C19
 //@ ret res
 //@ replace 1 `query_string.split('&')` => `str_split_to_vec(query_string, '&')`
 //   (Verus for-loops do not support `continue`: the loop over the materialised Vec is desugared to an indexed while loop by two declared rewrites)
